@@ -86,6 +86,7 @@ def gen_fmt(rng, avail):
 
 SPICE = set()      # which finding-triggering string classes the current case may contain
 ENCODINGS = ['utf-8', 'utf-16', 'latin-1', 'utf-8-sig']
+DEFAULT_ENCODINGS = ['utf-16', 'utf-32', 'utf-8-sig', 'latin-1', 'utf-8', 'utf-16', 'utf-32']
 
 
 def _l1(xs):
@@ -209,8 +210,10 @@ def gen_payload(rng, avail, fmt):
 
 def gen_wf(rng, fmt):
     SPICE.discard('latin1')
-    enc = rng.choice([None, None, None, 'utf-8', 'utf-16', 'utf-8-sig', 'latin-1']) if fmt != 'toml' else None
-    if enc == 'latin-1' and rng.random() < 0.85:
+    enc = rng.choice([None, None, None, None, 'utf-8', 'utf-16', 'utf-8-sig', 'latin-1']) if fmt != 'toml' else None
+    # pypyr's configured default encoding (config.default_encoding), varied per case
+    denc = rng.choice(DEFAULT_ENCODINGS) if rng.random() < 0.3 else None
+    if 'latin-1' in (enc, denc) and rng.random() < 0.9:
         SPICE.add('latin1')
     set_spice(rng, fmt)
     ctx = gen_ctx(rng)
@@ -250,9 +253,11 @@ def gen_wf(rng, fmt):
     elif r < 0.62:
         case['key'] = rng.choice(['', 0, None, 'n', 'a b', 7])
     # else: no key -> merge at root
-    if rng.random() < 0.08:
-        case['fetch_form'] = 'str'
+    if rng.random() < (0.4 if denc else 0.12):
+        case['fetch_form'] = 'str'          # the bare-string input form: just the path
         case.pop('key', None)
+    if denc:
+        case['default_enc'] = denc
     if fmt != 'toml':
         case['enc'] = enc
     # history: an EARLIER, unrelated document is fetched in the same process first
@@ -267,10 +272,12 @@ def gen_wf(rng, fmt):
                     v = rng.choice(YAML11)
                     case['payload']['d'].append([k, v if rng.random() < 0.7 else {'l': [v, rng.choice(YAML11)]}])
     case['parser'] = rng.random() < 0.5
-    if case.get('enc') not in (None, 'utf-8'):
-        case['parser'] = False          # the context parsers always read with the default encoding
+    if case.get('enc') and case['enc'] != (denc or 'utf-8'):
+        # the context parsers and a path-only fetch input cannot name an encoding: they read
+        # with the configured default, so only a file written in that default is theirs
+        case['parser'] = False
         if case.get('fetch_form') == 'str':
-            case['enc'] = None          # a path-only fetch input cannot name an encoding
+            case['enc'] = None
     r = rng.random()
     if r < 0.015:
         case['path'] = None
@@ -327,7 +334,10 @@ def gen_ff_enc(rng):
 def gen_ff(rng, fmt):
     SPICE.discard('latin1')
     encs = gen_ff_enc(rng) if fmt != 'toml' else {}
-    if 'latin-1' in encs.values() and rng.random() < 0.85:
+    if rng.random() < (0.25 if fmt != 'toml' else 0.03):
+        # (toml at low frequency only: known finding toml-fileformat-default-encoding)
+        encs['default_enc'] = rng.choice(DEFAULT_ENCODINGS)
+    if 'latin-1' in encs.values() and rng.random() < 0.9:
         SPICE.add('latin1')
     set_spice(rng, fmt)
     ctx = gen_ctx(rng)
@@ -353,7 +363,7 @@ def gen_ff(rng, fmt):
     if r < 0.12:
         case['text'] = rng.choice(HAND_TEXTS[fmt])
         if case['text'].startswith('\ufeff') or 'latin1' in SPICE:
-            for k in ('enc', 'enc_in', 'enc_out'):
+            for k in ('enc', 'enc_in', 'enc_out', 'default_enc'):
                 case.pop(k, None)
     else:
         dfmt = fmt
